@@ -193,6 +193,7 @@ Proof.
   - dstmt.
   - dstmt.
   - dstmt.
+  - (* SForMulti *) dstmt.
   - dstmt.
   - dstmt.
   - dstmt.
@@ -220,6 +221,7 @@ Proof.
     + dstmt.
     + dstmt.
     + destruct entries as [|[key val] more]; [dstmt|]. destruct v; dstmt.
+    + destruct ks as [|k ks]; [dstmt|]. destruct entries as [|[key val] more]; [dstmt|]. destruct ks; dstmt.
     + dstmt.
     + destruct nvs as [|[n v] rest]; dstmt.
     + destruct entries as [|[k v] more]; [dstmt|]. destruct keys as [|key krest]; dstmt.
